@@ -1,0 +1,9 @@
+//go:build verif
+
+package jobconfigcontroller
+
+// Contracts for fvc (see /verif/DESIGN.md). Comment-only file.
+
+// failed syncs of this reconciler are requeued without limit (C20)
+//@ func Reconciler.MaxRequeues
+//@   ensures [C20] unlimited-requeues: result == -1
